@@ -16,6 +16,16 @@ CHECKS = {
         "full-copy reference model",
         "ref": "DESIGN.md 4 C09",
     },
+    "C14": {
+        "level": "Exhaustive over every text over {a, e-acute, LF} of length <= 8 (quick) / <= 10 (thorough) x "
+        "every offset x every span, against closed-form line/column arithmetic; Hypothesis texts up to 400 "
+        "characters over wide Unicode. Complete within the bound.",
+        "note": "Trusted: the closed-form oracle (count/rfind of LF). Only LF line breaks are in the domain; "
+        "Span.lines() and line_of() are checked against the widest reading of the statement.",
+        "technique": "exhaustive small-scope enumeration + Hypothesis text generation against a closed-form "
+        "oracle (with inverse-map round trip)",
+        "ref": "DESIGN.md 4 C14",
+    },
 }
 
 # properties whose check is not built yet (kept current while the framework grows)
